@@ -98,7 +98,13 @@ void harness (void)
 	 * strictly inside it */
 	int64_t L = w.left_x, R = w.right_x, P = REPEAT == PIXMAN_REPEAT_NORMAL ? 65536 : 131072;
 	int lok = 0, rok = 0, inside = 0;
-	VP_ASSERT (L <= pos && pos <= R, "selected segment contains the position (closed interval: at a stop shared by two segments either neighbour is admissible, mirrored halves flip the half-open convention)");
+	/* half-open [L, R): a position that coincides with a stop belongs to the segment that STARTS there (so t == first stop
+	 * paints the first stop's colour, and a hard stop shows the later colour); an empty segment is admissible only when
+	 * the neighbouring stops coincide; in the mirrored halves of REFLECT the convention is flipped by the mirroring */
+	if (REPEAT == PIXMAN_REPEAT_REFLECT && (pos & 0x10000))
+	    VP_ASSERT (L <= pos && pos <= R, "mirrored half: selected segment contains the position");
+	else
+	    VP_ASSERT (L <= pos && (pos < R || L == R), "selected segment [L, R) contains the position");
 	for (i = 1; i <= NS; i++)
 	{
 	    int64_t sx = store[i].x;
